@@ -1705,6 +1705,11 @@ def iso_base():
         P("iso-yield-while-others-blocked-3", [L("lock", "m"), spawn(2), spawn(3), I("yield"), st("y", 1), I("yield"), L("unlock", "m"), L("lock", "m"), ld("x"), L("unlock", "m"),
                                                 join(2), join(3)],
           [ld("y"), L("lock", "m"), fadd("x", 1), L("unlock", "m")], [ld("y"), L("lock", "m"), fadd("x", 2), L("unlock", "m")]),
+        # a thread created with a large stack (thread::Builder::stack_size) that really uses it, next to default-sized threads,
+        # created by two different threads in both orders (its loom thread index differs from iteration to iteration): every
+        # iteration gives every thread the stack its spawn asked for
+        P("iso-large-stack-thread", [spawn(2), st("x", 1), spawn(3), join(2), join(3)], [ld("x"), I("spawn", v=4, ord="builder"), join(4)], [ld("y")],
+          [I("stack", v=160), ld("y")]),
     ]
     B = [
         P("dis-leak-msg", [spawn(2), join(2)], [L("send", "ch", v=7), L("send", "ch", v=8)]),
